@@ -24,7 +24,7 @@ func init() {
 			"time stamps of two testdrv sessions may differ by one constant (the driver mixes the real and its virtual clock when a session starts); the monitor requires the difference to be the same for every retained message and below 60 s",
 			"domain is the well-formed C04 domain, as the quantifier says",
 		},
-		Require:         []string{"sessions_through_clock_zero", "sessions_with_fractional_intervals", "sessions_beyond_2^31_ms", "sessions_l1", "sessions_l2", "filtered:sense", "filtered:clock", "filtered:sysex", "retained_messages_compared", "cases_with_all_option_sets_on_one_port_pair"},
+		Require:         []string{"sessions_through_clock_zero", "sessions_with_fractional_intervals", "sessions_beyond_2^31_ms", "sessions_l1", "sessions_l2", "filtered:sense", "filtered:clock", "filtered:sysex", "retained_messages_compared", "cases_with_all_option_sets_on_one_port_pair", "standard_sysex_messages_under_all_option_sets"},
 		FakeTimeWorkers: 1,
 		Run:             runC14,
 	})
@@ -161,7 +161,7 @@ func runC14(c *mon.Ctx) {
 		msgs := gen.LiveSequence(r, r.Range(20, 45), lc.bufSize(), true)
 		for k := range msgs { // plenty of filterable messages
 			if r.P(1, 3) {
-				msgs[k] = [][]byte{{0xF8}, {0xFE}, {0xF0, 0x7D, byte(k & 127), 0xF7}}[r.Intn(3)]
+				msgs[k] = [][]byte{{0xF8}, {0xFE}, {0xF0, 0x7D, byte(k & 127), 0xF7}, gen.WellKnownSysex[(k+int(i))%len(gen.WellKnownSysex)]}[r.Intn(4)]
 			}
 		}
 		w := gen.Serialize(r, msgs, gen.SerOpts{RunningStatus: true, Realtime: r.P(1, 2)})
@@ -199,6 +199,20 @@ func runC14(c *mon.Ctx) {
 		c.DistinctBytes(w.Bytes)
 	})
 	c.MarkExhaustive("all ordered pairs of the 16 message kinds followed by FE, F8, a sysex and a note: 8 option sets x 2 levels x 2 chunkings")
+	// the standard sysex messages (MIDI time code full frame, MMC, GM on, identity, ...): a sysex is a sysex for the
+	// filters, whatever it means
+	c.Each("standard-sysex", int64(len(gen.WellKnownSysex)), func(i int64, _ *mon.Rand) {
+		sx := gen.WellKnownSysex[i]
+		if len(sx) > 200 {
+			return
+		}
+		msgs := [][]byte{{0x90, 0x40, 0x40}, sx, {0xF8}, {0xFE}, sx, {0x80, 0x40, 0x00}}
+		w := gen.Serialize(nil, msgs, gen.SerOpts{})
+		c14Check(c, w.Bytes, [][]byte{w.Bytes}, []int32{5}, 0)
+		c14Check(c, w.Bytes, splitBytes(w.Bytes), ones(len(w.Bytes)), 0)
+		c.Count("standard_sysex_messages_under_all_option_sets", 1)
+		c.DistinctBytes(w.Bytes)
+	})
 	// one chunk that starts with a sysex and ends with another sysex, other messages in between
 	c.Each("sandwich", c.N(300, 20_000), func(i int64, r *mon.Rand) {
 		mk := func(n int) []byte {
